@@ -54,8 +54,9 @@ def _chunk(prop, seed, tier, lo, hi, wall):
                               "steps": res.steps, "run_index": idx, "count": (cur or {}).get("count", 0) + 1}
             else:
                 cur["count"] += 1
-        elif len(samples) < 2 and res.nontrivial:
-            samples.append({"run_index": idx, "config": res.cfg, "steps": res.steps[:40]})
+        elif len(samples) < 2 and (res.nontrivial or idx == lo):
+            samples.append({"run_index": idx, "config": res.cfg, "steps": res.steps[:40],
+                            "nontrivial": bool(res.nontrivial), "steps_total": len(res.steps)})
     faulthandler.cancel_dump_traceback_later()
     return {"stats": stats, "fps": fps, "nontriv": nontriv, "viols": viols, "samples": samples,
             "runs": hi - lo, "steps": steps_total}
